@@ -170,6 +170,38 @@ def oracle_pickle(rng):
             byname = {v.name: v for v in p2.all_variables}
             if len(byname) != len(p2.all_variables):
                 return 'duplicate Variable names in a compiled Problem'
+        # 3. graphs that contain slices (improper Variables) in any order relative to their parent: the components stay
+        #    linked to the proper Variable and a model over the loaded objects still compiles (fixed in /repo f0e3c75)
+        for trial in range(6):
+            z = cl.Variable(shape=(3,), name='pz%d' % trial)
+            sl = z[1:] if trial % 2 == 0 else z[::2]
+            objs = [z, sl, 2 * sl + 1]
+            rng.shuffle(objs)
+            loaded = pickle.loads(pickle.dumps(tuple(objs)))
+            z2 = [o for o in loaded if isinstance(o, cl.Variable) and o.is_proper()][0]
+            s2 = [o for o in loaded if isinstance(o, cl.Variable) and not o.is_proper()][0]
+            if any(sv.parent is not z2 for sv in z2.scalar_variables()) or any(sv.parent is not z2 for sv in s2.scalar_variables()):
+                return ('after unpickling a Variable and a slice of it (order %s) the components are linked to the slice, not to the Variable'
+                        % [type(o).__name__ + ('' if not isinstance(o, cl.Variable) else ('(proper)' if o.is_proper() else '(slice)')) for o in objs])
+            try:
+                got = cl.Problem(cl.MIN, z2[0] + z2[1] + z2[2], [z2 >= 1, s2 >= 2]).solve(verbose=False)
+            except RuntimeError as e:
+                return 'a model over an unpickled Variable and its slice cannot be compiled: %s' % ' '.join(str(e).split())[:160]
+            want = 5.0
+            if got[0] != 'solved' or abs(got[1] - want) > 1e-6:
+                return 'a model over an unpickled Variable and its slice solves to %r, expected %r' % (got, want)
+        for order in (0, 1):
+            w = cl.Variable(shape=(3,), name='pw%d' % order)
+            cons = [w >= 1, w[1:] >= 2]
+            if order:
+                cons.reverse()
+            p2 = pickle.loads(pickle.dumps(cl.Problem(cl.MIN, w[0] + w[1] + w[2], cons)))
+            try:
+                got = cl.Problem(p2.objective_sense, p2.objective_expr, p2.constraints).solve(verbose=False)
+            except RuntimeError as e:
+                return 'the constraints of an unpickled Problem (one of them on a slice) cannot be compiled again: %s' % ' '.join(str(e).split())[:160]
+            if got[0] != 'solved' or abs(got[1] - 5.0) > 1e-6:
+                return 'the constraints of an unpickled Problem recompile to a model that solves to %r, expected 5' % (got,)
     return None
 
 
